@@ -38,7 +38,7 @@ def isamp(x, fs):
 # helper interpreters
 # ---------------------------------------------------------------------------------------
 
-HELPER_CPU = 120        # CPU seconds a helper interpreter may burn (a loaded machine cannot trip a CPU limit)
+HELPER_CPU = 60         # CPU seconds a helper interpreter may burn (a loaded machine cannot trip a CPU limit)
 HELPER_WALL = 900       # wall-clock backstop only
 
 
@@ -96,8 +96,12 @@ LEAVES = {'tone', 'samtone', 'silence', 'bbn', 'blnoise', 'firnoise', 'shaped', 
 FIXED_LIKE = {'chirp', 'click', 'blclick', 'wav'}
 
 
-def _cal():
+def _cal(kind=True):
+    """flat calibration; `interp`: one whose sensitivity depends on frequency (the SAM tone's `equalize` option, which
+    scales the sidebands by their own frequencies, makes a difference only then)"""
     from psiaudio import calibration
+    if kind == 'interp':
+        return calibration.InterpCalibration([0.0, 100.0, 1000.0, 10000.0, 200000.0], [-20.0, -17.0, -23.0, -14.0, -19.0])
     return calibration.FlatCalibration.from_spl(94)
 
 
@@ -311,7 +315,7 @@ def build_real(node, pool=None):
     om = bool(node.get('omit'))
     fs = rep(node.get('fs'), node.get('fsrep'))
     tr = node.get('trep')
-    cal = _cal() if node.get('cal') else None
+    cal = _cal(node['cal']) if node.get('cal') else None
     if t == 'tone':
         return _make(stim.ToneFactory, [('fs', fs), ('frequency', node['frequency']), ('level', node['level']),
                                         ('phase', node.get('phase', 0)), ('polarity', node.get('polarity', 1)),
